@@ -43,29 +43,8 @@
  * DEC_O = scan offset, DEC_B = start of the input object. */
 #define DEC_O(in) ((size_t) __CPROVER_POINTER_OFFSET(in))
 #define DEC_B(in) ((const char *) (in) - DEC_O(in))
-#ifdef UP_DEC_CONTENT
-/* decoded length so far = offset - 2 * escapes so far */
-#define DEC_INV_LEN(in, len) ((len) + 2 * UP_PCT_BEFORE(DEC_B(in), DEC_O(in)) == DEC_O(in))
-/* every '%' passed so far starts a well-formed escape that ends at or before the scan offset */
-#define DEC_INV_ESC(in)                                                         \
-	__CPROVER_forall { size_t vp_q; (vp_q < UP_DEC_CAP) ==>                 \
-	    ((vp_q < DEC_O(in) && DEC_B(in)[vp_q] == '%') ==>                   \
-	        (UP_ESC_OK(DEC_B(in), vp_q) && vp_q + 3 <= DEC_O(in))) }
-/* the token that starts at the free ghost index g_k has been written */
-#define DEC_INV_OUT(in, out, len)                                               \
-	((g_k < DEC_O(in) && UP_TOKSTART(DEC_B(in), g_k)) ==>                   \
-	    (g_k - 2 * UP_PCT_BEFORE(DEC_B(in), g_k) < (len) &&                 \
-	        (out)[g_k - 2 * UP_PCT_BEFORE(DEC_B(in), g_k)] ==               \
-	            (DEC_B(in)[g_k] == '%' ? UP_ESCVAL(DEC_B(in), g_k)          \
-	                                   : (uint8_t) DEC_B(in)[g_k])))
-#define DEC_INV_FRAME(out, len, max_len) 1
-#else
-#define DEC_INV_LEN(in, len) 1
-#define DEC_INV_ESC(in) 1
-#define DEC_INV_OUT(in, out, len) 1
 /* output bytes at or beyond len still have their old value */
 #define DEC_INV_FRAME(out, len, max_len) (((g_j < (max_len)) && g_j >= (len)) ==> (out)[g_j] == g_ob)
-#endif
 
 /* module-local ghosts */
 size_t   g_m;   /* free ghost scalar */
